@@ -658,6 +658,43 @@ theorem split_render (name : String) (as : List Arg) (hname : isIdent name = tru
     · simp at hm
   rw [splitOnChar_append _ _ _ h1, splitOnChar_not_mem _ _ h2]
 
+theorem expandTabs_noTab (t : List Char) (h : ∀ c ∈ t, c ≠ '\t') (col : Nat) :
+    expandTabsFrom col t = t := by
+  induction t generalizing col with
+  | nil => rfl
+  | cons a u ih =>
+    have ha : (a == '\t') = false := by simpa using h a List.mem_cons_self
+    have iu := fun col => ih (fun c hc => h c (List.mem_cons_of_mem _ hc)) col
+    simp only [expandTabsFrom, ha, Bool.false_eq_true, if_false]
+    split <;> rw [iu]
+
+theorem tok_ne_tab {c : Char} (h : keyChar c = true) : c ≠ '\t' := by
+  rintro rfl
+  have := keyChar_not_ws h
+  simp [isWs] at this
+
+theorem Arg.text_noTab (a : Arg) (h : a.wf = true) : ∀ c ∈ a.text, c ≠ '\t' := by
+  cases a with
+  | pos l => exact fun c hc => tok_ne_tab ((Lit.text_tok l h).1 c hc).1
+  | kw k l =>
+    simp only [Arg.wf, Bool.and_eq_true] at h
+    intro c hc
+    simp only [Arg.text, List.mem_append, List.mem_cons] at hc
+    rcases hc with hc | rfl | hc
+    · exact tok_ne_tab ((isIdent_tok h.1).1 c hc).1
+    · decide
+    · exact tok_ne_tab ((Lit.text_tok l h.2).1 c hc).1
+
+theorem render_body_noTab (as : List Arg) (h : ∀ a ∈ as, a.wf = true) :
+    ∀ c ∈ joinComma (as.map Arg.text) ++ [')'], c ≠ '\t' := by
+  intro c hc
+  rcases List.mem_append.1 hc with hc | hc
+  · rcases mem_joinComma hc with rfl | ⟨t, ht, hct⟩
+    · decide
+    · obtain ⟨a, ha, rfl⟩ := List.mem_map.1 ht
+      exact Arg.text_noTab a (h a ha) c hct
+  · simp only [List.mem_singleton] at hc; subst hc; decide
+
 /-- the safe_eval reading of a rendered call, before the order / repetition verdict -/
 theorem parseCall_render (name : String) (as : List Arg) (hname : isIdent name = true)
     (h : ∀ a ∈ as, a.wf = true) :
@@ -666,7 +703,8 @@ theorem parseCall_render (name : String) (as : List Arg) (hname : isIdent name =
       else .ok ⟨name, argVals as, itemKwargs [] (as.map toItem), true⟩ := by
   unfold parseCall
   rw [split_render name as hname h]
-  simp only [getParams, parseItems_render as h [], badOrder_render, argBadOrder_eq,
+  simp only [getParams, expandTabs_noTab _ (render_body_noTab as h), parseItems_render as h [],
+    badOrder_render, argBadOrder_eq,
     itemArgs_render as h, String.ofList_toList]
   cases argPosAfterKw as <;> rfl
 
